@@ -4,4 +4,5 @@ package all
 import (
 	_ "verif/harness/c01"
 	_ "verif/harness/c02"
+	_ "verif/harness/c03"
 )
